@@ -1520,7 +1520,7 @@ def walk(
 
             # last yield on leaving walk root, which may restart the walk
 
-            if self_ and (ast := self.a):  # may have been deleted
+            if self_ and (ast := self.a) and check_all_param(self):  # may have been deleted, and is subject to the `all` filter like any other node
                 recurse_ = False
 
                 while (sent := (yield self)) is not None:
@@ -1601,7 +1601,7 @@ def walk(
 
             # last yield on leaving walk root, which may restart the walk
 
-            if self_ and (ast := self.a):  # may have been deleted
+            if self_ and (ast := self.a) and check_all_param(self):  # may have been deleted, and is subject to the `all` filter like any other node
                 recurse_ = False
                 yield_ = (self, True)
 
